@@ -54,6 +54,13 @@ func buildReplayBinary() (string, error) {
 				}
 			}
 		}
+		for _, f := range extraHarnessFiles {
+			replace[filepath.Join(repoDir, filepath.Base(f))] = f
+			b, _ := os.ReadFile(f)
+			for _, m := range reHarness.FindAllSubmatch(b, -1) {
+				names = append(names, string(m[1]))
+			}
+		}
 		sort.Strings(names)
 		var reg bytes.Buffer
 		reg.WriteString("//go:build verif\n\npackage saml2\n\nvar vxHarnesses = map[string]func(){\n")
